@@ -306,7 +306,8 @@ func (r *runState) securePair(cap01, cap10 int, k0, k1 recKey, hazard bool) (*Si
 		s.finish(true)
 		if co {
 			r.c.Probe("honest_handshake_failed_after_coalescing")
-			if r.violate("handshake", "handshake/honest-pair-fails/first-two-messages-coalesced",
+			// the defect is in shareEphPubKey, before any frame is read: one key for all frame modes
+			if r.violateAnyMode("handshake", "handshake/honest-pair-fails/first-two-messages-coalesced",
 				"two honest endpoints over a lossless ordered pipe did not establish a connection (stuck=%v, errors: %v / %v): the peer's ephemeral-key message and auth frame became readable together and the auth frame was lost", stuck, e0, e1) {
 				return nil, nil, nil, false
 			}
